@@ -59,6 +59,11 @@ CHECKS = [
   'level': 'Every edge of the conversion registry (found through the registry, not by name) executes; each linear/complexifying change satisfies P_new(x) = P_old(Lx) for the matrix the code uses; bidirectional edges compose to the identity; '
            'M M^-1 = I, solve_real/solve_complex, synodic<->local (collinear both signs, triangular) and modal<->local are exact inverses for symbolic inputs; polynomial and coordinate changes agree.',
   'note': 'degree <= 3 polynomials with 9 symbolic complex coefficients; normal-form matrix replaced by a symbolic symplectic shear family with closed-form inverse; Lie edges only executed (C08); generic-side zero-skip/cleaning policy'},
+ {'id': 'C08',
+  'technique': 'symbolic execution of the partial and full Lie transforms and of the coordinate expansions on a Hamiltonian with formal frequencies and symbolic higher-order coefficients; residual coefficients decided on exact rational-function normal forms against an independent composition/bracket reference',
+  'level': 'For all frequencies (non-resonant) and coefficient values: every removable monomial of degree 3..N vanishes identically after the transform, H2 is untouched, H_new = H_old o Phi with the code\'s own forward series, '
+           '{Phi_i, Phi_j} = J_ij and Phi^-1 o Phi = id to the stated order.',
+  'note': 'elimination N <= 5 (6 thorough), composition obligations N <= 4 (5 thorough); H3, H4 supports of 7 symbolic coefficients (two supports, one seeded); non-resonance and generic-side cleaning assumed; degrees 7..10 outside'},
 ]
 _BUILT = {c['id'] for c in CHECKS}
 NOT_APPLICABLE = [
